@@ -113,6 +113,13 @@ def renderHeader (sec : SecId) (options : List (Bytes × Option HVal)) : E Bytes
     let head := [35] ++ sec.bytes ++ [58]
     pure (if optionsStr.isEmpty then head ++ [10] else head ++ [32] ++ optionsStr.toAscii ++ [10])
 
+/-- the stack update of `_new_container_section` (lines 452-460): pop
+`cur_level - level + 1` frames, then push `encoding or self._cur_encoding` -/
+def pushFrame (stack : List (Option Name)) (level : Nat) (encoding : Option Name) : List (Option Name) :=
+  let kept := stack.take (stack.length - ((stack.length - 1) + 1 - level))
+  let top : Option Name := (kept.getLast?).getD none
+  kept ++ [if truthy encoding then encoding else top]
+
 /-- `_new_container_section` -/
 def newContainer (name : SecName) (level : Nat) (encoding : Option Name)
     (extra : List (Bytes × Option HVal)) : M Unit := do
@@ -123,11 +130,7 @@ def newContainer (name : SecName) (level : Nat) (encoding : Option Name)
   let header ← liftE (renderHeader sec ((b!"encoding", encoding.map HVal.str) :: extra))
   modify fun st => { st with out := st.out ++ header }
   modify fun st => { st with prev := some sec }
-  -- pop `cur_level - level + 1` frames, then push
-  modify fun st =>
-    let stack := st.stack.take (st.stack.length - (st.level + 1 - level))
-    let top : Option Name := (stack.getLast?).getD none
-    { st with stack := stack ++ [if truthy encoding then encoding else top] }
+  modify fun st => { st with stack := pushFrame st.stack level encoding }
 
 /-- `guess_line_endings` for a `str` (no encoding involved) -/
 def guessText (t : Text) : Bool × Text :=
